@@ -22,6 +22,10 @@ def main():
             txaio.use_twisted()
         elif fw == "asyncio":
             txaio.use_asyncio()
+        try:    # keep the library's warn-level logging out of the worker logs
+            txaio.start_logging(out=open(os.devnull, "w"), level="critical")
+        except Exception:
+            pass
         repo = os.path.realpath(os.environ.get("VERIF_REPO", "/repo"))
         import autobahn
         if not os.path.realpath(autobahn.__file__).startswith(repo + os.sep):
